@@ -4,7 +4,7 @@ from ..kengine import H
 ID = "C18"
 MODULE = "c18"
 ENGINE = "KM"
-TECHNIQUE = "Base64: Kani/CBMC bounded model checking of the compiled code; dates: symbolic execution of the MIR with cut-point invariants -> z3 (integer arithmetic); counterexamples replayed natively"
+TECHNIQUE = "Base64: Kani/CBMC bounded model checking of the compiled code; dates, SHA-1, percent-encoding: symbolic execution of the MIR (cut-point invariants; bit-vectors for SHA-1; format! through a model of the fmt::Arguments template) -> z3; counterexamples replayed natively"
 
 META = {
     "functions_encoded": [
@@ -17,7 +17,7 @@ META = {
     "outside_bounds": [
         "Base64 inputs longer than the listed shapes (encode > 7 bytes, decode > 8 symbols)",
         "non-canonical final groups (non-zero discarded bits): either outcome accepted, RFC 4648 §3.5",
-        "SHA-1 messages longer than 130 bytes (thorough: 1100) for the padding piece; the per-round/per-step pieces hold for arbitrary states", "percent-encoding: not encodable (format!-based), see DESIGN §5 C18",
+        "SHA-1 messages longer than 130 bytes (thorough: 1100) for the padding piece; the per-round/per-step pieces hold for arbitrary states", "percent-encoding beyond the listed lengths",
     ],
 }
 
@@ -55,7 +55,7 @@ def harnesses():
 def run(tier, run_k):
     """Base64 by engine K, dates by engine M; one evidence file."""
     import json, os, time
-    from ..common import log, write_evidence, REPLAY_DIR, git_head, REPO, repo_dirty, WORK
+    from ..common import log, write_evidence, REPLAY_DIR, git_head, REPO, repo_dirty, WORK, load_known
     from .. import mengine, kengine
     from . import c18_date
     k = run_k()
@@ -157,6 +157,54 @@ def run(tier, run_k):
         "violations": sh["violations"],
         "undischarged": [{"job": r.get("job"), "why": r.get("why")} for r in sh["undischarged"]],
     }
+    # ---- percent-encoding (engine M; `format!` through the fmt::Arguments template model)
+    from . import c18_pct
+    try:
+        pc = c18_pct.run_part(tier, work, mir)
+    except Exception as e:
+        log("UNDISCHARGED: percent-encoding — %s" % str(e)[:500])
+        pc = {"results": [], "violations": [], "known_hits": [], "machinery": [], "undischarged": [{"job": "all", "why": str(e)[:300]}], "validation": {}}
+    for v in pc["known_hits"]:
+        log("KNOWN-FINDING: property=%s key=%s %s [%s(%r): natively %s, RFC 3986 %s]" % (ID, v["key"], load_known()[(ID, v["key"])], v["kind"], v["input"], v["native_dev"], v["expected"]))
+    for v in pc["violations"][:1]:
+        path = os.path.join(REPLAY_DIR, "C18-percent.json")
+        os.makedirs(REPLAY_DIR, exist_ok=True)
+        with open(path, "w") as f:
+            json.dump(dict(v, property=ID, engine="M", how="./check C18 --replay " + path), f, indent=1)
+        log("VIOLATION property=%s replay=%s" % (ID, path))
+        log("   %s(%r) = %s natively (release %s), RFC 3986 gives %s (%s)" % (v["kind"], v["input"], v["native_dev"], v["native_release"], v["expected"], v["failed"]))
+        rc = 1
+        nviol += 1
+    for m in pc["machinery"]:
+        log("MACHINERY-ERROR: " + m)
+        rc = rc or 2
+    for r in pc["undischarged"][:5]:
+        log("UNDISCHARGED: percent-encoding %s — %s" % (r.get("job"), r.get("why")))
+    okp = [r for r in pc["results"] if r["verdict"] == "unsat"]
+    log("   percent-encoding: %d/%d obligations discharged (decode: every string of the listed character classes; encode: every byte string), translator validation on %s inputs" % (
+        len(okp), len(pc["results"]), pc["validation"].get("inputs")))
+    cov["evaluations"] += len(pc["results"])
+    cov["distinct_nontrivial"] += len([r for r in pc["results"] if r["verdict"] in ("unsat", "sat") and r["n"] >= 1])
+    cov["obligations"] += len(pc["results"])
+    cov["discharged"] += len(okp) + len([r for r in pc["results"] if r["verdict"] == "sat" and not pc["violations"] and not pc["machinery"]])
+    cov["states"] = cov.get("states", 0) + sum(r.get("blocks", 0) for r in pc["results"])
+    cov["transitions"] = cov.get("transitions", 0) + sum(r.get("feasibility_queries", 0) + r.get("n_checks", 0) for r in pc["results"])
+    cov["traces_validated_against_impl"] = cov.get("traces_validated_against_impl", 0) + (pc["validation"].get("inputs") or 0)
+    decs = [r for r in pc["results"] if r["kind"] == "dec"]
+    encs = [r for r in pc["results"] if r["kind"] == "enc"]
+    cov["percent"] = {
+        "functions_encoded": ["humphrey/src/percent.rs: <T as PercentDecode>::percent_decode (T: AsRef<str>; generic MIR)", "humphrey/src/percent.rs: <T as PercentEncode>::percent_encode (T: AsRef<[u8]>; generic MIR)"],
+        "bounds": {"decode": "strings of 0..%d characters: every UTF-8 length-class vector up to 2 (3) characters, ASCII-only and one-2-byte-character vectors beyond; %d obligations" % (max([r["n"] for r in decs] + [0]), len(decs)),
+                   "encode": "byte strings of 0..%d arbitrary bytes" % max([r["n"] for r in encs] + [0])},
+        "specification": "RFC 3986 2.1/2.3 as parse shapes over the same symbolic bytes (vlib/props/c18_pct.py); Python reference judges native replays",
+        "std_models_trusted": sorted(set(m for r in pc["results"] for m in r.get("models", []))),
+        "translator_validation": pc["validation"],
+        "violations": pc["violations"], "known_findings_seen": pc["known_hits"],
+        "undischarged": pc["undischarged"],
+        "outside": "longer inputs; decode(encode(b)) == b only through the two equalities with the reference",
+    }
+    cov["functions_encoded"] = list(cov.get("functions_encoded", [])) + cov["percent"]["functions_encoded"]
+    cov["solver_time_s"] = round(cov.get("solver_time_s", 0) + sum(r.get("solver_s", 0) for r in pc["results"]), 2)
     cov["functions_encoded"] = list(cov.get("functions_encoded", [])) + [cov["sha1"]["function_encoded"]]
     cov["solver_time_s"] = round(cov.get("solver_time_s", 0) + sum(r.get("solver_s", 0) for r in d["results"]), 2)
     cov["functions_encoded"] = list(cov.get("functions_encoded", [])) + [cov["dates"]["function_encoded"]]
@@ -174,6 +222,12 @@ def replay(d, path):
     mengine.setup(ID)
     kengine.write_lists({})
     exe = mengine.build_mtool("debug")
+    if d.get("kind") in ("pctdec", "pctenc"):
+        from . import c18_pct
+        if c18_pct.replay(d):
+            log("VIOLATION property=%s replay=%s" % (ID, path))
+            return 1
+        return 0
     if d.get("kind") == "sha1":
         import hashlib
         got = mengine.native_eval(exe, ["sha1 %s" % (d["message_hex"] or "-")])[0]
